@@ -11,8 +11,9 @@ from vf.core import hyp_run, reset_tatsu_state, watchdog, CaseTimeout
 from vf.refpeg import Ref
 
 PROPERTY = 'C03'
+HISTORY_CONFIRM = True   # a failure that needs the process history is confirmed by re-running its shard from the seed
 RULE = ('specification-first generation: a precedence table (1-3 levels; left levels with shape direct / aliased before / aliased after '
-        '(mutual) / named / optional-prefixed / split (each operator alternative in its own rule, optional cut after the operator, a postfix operator that starts like the binary one) / twin (two directly left-recursive rules that also call each other: no rule on all cycles); right-recursive and unary-prefix levels; optional parenthesised atom) printed as a grammar; '
+        '(mutual) / named / optional-prefixed / split (each operator alternative in its own rule, optional cut after the operator, a postfix operator that starts like the binary one) / twin (two directly left-recursive rules that also call each other: no rule on all cycles) / mutual (two rules that call each other in left position, each with its own operator, over a lower left-recursive level); right-recursive and unary-prefix levels; optional parenthesised atom) printed as a grammar; '
         'inputs: generated operator/operand strings with and without spaces plus near misses (trailing / doubled operator, unbalanced '
         'parenthesis), and in the enumeration shard all lexeme strings up to a bound for fixed family grammars; parsed from every level rule '
         'and alias rule. non-trivial = the input has >= 2 operators of one left-recursive level or a right-recursive tail after a '
@@ -37,10 +38,20 @@ def genparser(gtext, sh_index=0):
     return mod, cls
 
 
+_instances = {}
+
+
 def parse_gen(cls, text, start):
+    """one parser object per generated class serves every input (a reused object must behave like a fresh one);
+    failures that need the history are confirmed by re-running the shard (HISTORY_CONFIRM)"""
     from tatsu.exceptions import FailedParse, ParseException
+    inst = _instances.get(cls)
+    if inst is None:
+        if len(_instances) > 8:
+            _instances.clear()
+        inst = _instances[cls] = cls()
     try:
-        a = cls().parse(text, start=start)
+        a = inst.parse(text, start=start)
     except FailedParse as e:
         return ('fail', type(e).__name__, e.pos)
     except ParseException as e:
@@ -139,6 +150,7 @@ FAMILY = [
     dict(levels=[dict(kind='left', ops=['+'], rule='e0', shape='alias_after', alias='a0')], paren=False, stmt=None),
     dict(levels=[dict(kind='left', ops=['+', '-'], rule='e0', shape='split', cuts=[True, False], postfix='++')], paren=False, stmt=None),
     dict(levels=[dict(kind='left', ops=['+'], rule='e0', shape='twin')], paren=False, stmt=None),
+    dict(levels=[dict(kind='left', ops=['+'], rule='e0', shape='mutual', partner_op='<<'), dict(kind='left', ops=['*'], rule='e1', shape='direct')], paren=False, stmt=None),
 ]
 
 
